@@ -230,9 +230,11 @@ func (ctx *cmdContext) infoUnlocked(cs *clientState) string {
 	}
 
 	// name, selected database and protocol belong to the other connection's goroutine
+	simBeforeLock(&cs.mu, "cs.mu")
 	cs.mu.Lock()
 	name, selectedDb, respVersion := cs.name, cs.selectedDb, cs.respVersion
 	cs.mu.Unlock()
+	simAfterUnlock(&cs.mu, "cs.mu")
 
 	info = append(info,
 		fmt.Sprintf("id=%d", cs.id),
